@@ -99,11 +99,16 @@ Proof.
   eexists. split; [vm_compute; reflexivity|]. split; [vm_compute; reflexivity|]. vm_compute. reflexivity.
 Qed.
 
-(* annotation track, component level: refine_ts_track's example (25 annotations, decimate factor 10, timestamps k / 3) *)
+(* annotation track, component level: refine_ts_track's example (25 annotations, decimate factor 10, timestamps k / 3).
+   refine_ts_track asks for a payload codec whose output is shorter than 2^32 bytes for EVERY record of the type, which
+   wm_anno_payload is not (the annotation data is an unbounded list); the instance below uses the codec that agrees with
+   wm_anno_payload on every annotation that fits (all of rx_annos) *)
+Definition cmp_anno_enc (a : anno) : list N := if rf_len (wm_anno_payload a) <? 4294967296 then wm_anno_payload a else [].
+
 Lemma cmp_ts_example :
   JLS_TRACK_TYPE_ANNOTATION < 4 /\ (forall s, length (rt_anno_encS s) = 16%nat) /\ (2 <= 10)%nat /\
   16 + 16 * N.of_nat 10 < 4294967296 /\
-  Forall (fun a => rf_len (wm_anno_payload a) < 4294967296) rx_annos /\
+  (forall a, rf_len (cmp_anno_enc a) < 4294967296) /\ map cmp_anno_enc rx_annos = map wm_anno_payload rx_annos /\
   rt_fresh JLS_TRACK_TYPE_ANNOTATION 10 rx_tx0 /\ (length rx_annos < 10 ^ 15)%nat /\
   StronglySorted Z.le (map an_ts rx_annos) /\
   length (tw_disk (ts_file anno ts_anno_sum an_ts ts_anno_summ 10 rx_annos)) = 33%nat /\
@@ -112,7 +117,10 @@ Lemma cmp_ts_example :
 Proof.
   destruct rx_ts_example as (B1 & _ & B3 & _ & B5).
   split; [reflexivity|]. split; [exact rt_anno_encS_len|]. split; [repeat constructor|]. split; [reflexivity|].
-  split; [exact B3|]. split; [exact B1|].
+  split. { intro a. unfold cmp_anno_enc. destruct (N.ltb_spec (rf_len (wm_anno_payload a)) 4294967296) as [H|H]; [exact H|reflexivity]. }
+  split. { apply map_ext_in. intros a Ha. unfold cmp_anno_enc. rewrite Forall_forall in B3. specialize (B3 a Ha).
+           apply N.ltb_lt in B3. rewrite B3. reflexivity. }
+  split; [exact B1|].
   split. { apply Nat.lt_le_trans with (10 ^ 2)%nat; [vm_compute; repeat constructor|apply Nat.pow_le_mono_r; [discriminate|repeat constructor]]. }
   split. { vm_compute. repeat (constructor; [|repeat constructor; discriminate]). constructor. }
   split; [exact B5|]. vm_compute. reflexivity.
